@@ -4,12 +4,9 @@ Only property theorems and non-vacuity examples live here; helper lemmas are in 
 -/
 import Prs.Proofs.Symdel
 import Prs.Proofs.LevDP
+import Prs.Spec.Scores
 namespace Prs
 variable {α : Type} [DecidableEq α]
-
-/-- pair filter of the default mode: Levenshtein distance ≤ k, reported value = that distance -/
-def levScore (k : Nat) (a b : List α) : Option Nat :=
-  if lev a b ≤ k then some (lev a b) else none
 
 /-- `symdel(xs, max_edits = k)` / `nearest_neighbor(xs, k)` in the default mode -/
 def symdelDefault (k : Nat) (xs : List (List α)) : List (Trip Nat) :=
